@@ -210,6 +210,18 @@ func (x *Exec) run(res *FuncResult) {
 			x.assume(st, env.HypFormula(r.Expr))
 		}
 	})
+	x.prodSubj = nil
+	if fi.Lit != nil && c.Yields != "" {
+		if sc := x.W.CS.ByKey["stream."+c.Yields]; sc != nil {
+			// a producer starts: the recorded ghost variables have their initial values; its subjects are fixed now
+			x.resetRecords(st, sc, false, 0)
+			x.wrapCfail("subjects of "+c.Key, func() {
+				for _, e := range c.YieldsArgs {
+					x.prodSubj = append(x.prodSubj, env.tr(e))
+				}
+			})
+		}
+	}
 	for _, u := range c.Uses {
 		x.useLemma(st, u)
 	}
@@ -252,6 +264,19 @@ func (x *Exec) checkPost(st *St, fr *Frame, v *Val, names map[string]*Val) {
 		}
 		if !x.W.protoCompatible(got, want) {
 			x.emit(st, oblTemplate{kind: "proto", label: "yields", clause: "the returned iterator obeys stream " + c.Yields + " (got " + got + ")"}, nil, False)
+		}
+		if len(c.YieldsArgs) > 0 {
+			// the returned iterator was created for the subjects the contract promises
+			senv := &CEnv{X: x, Names: names, St: st, Pkg: fi.Pkg}
+			x.wrapCfail("subjects of "+c.Key, func() {
+				for i, e := range c.YieldsArgs {
+					goal := False
+					if v != nil && i < len(v.Subj) && v.Subj[i] != nil && v.Subj[i].T != nil {
+						goal = Eq(senv.tr(e).T, v.Subj[i].T)
+					}
+					x.emit(st, oblTemplate{kind: "proto", label: fmt.Sprintf("subject%d", i), clause: "the returned iterator's subject is " + e.String()}, nil, goal)
+				}
+			})
 		}
 	}
 	post := map[string]*Val{}
@@ -311,9 +336,11 @@ func (x *Exec) checkPost(st *St, fr *Frame, v *Val, names map[string]*Val) {
 			x.emit(st, oblTemplate{kind: "proto", label: "returns", clause: "the returned function value obeys protocol " + c.RetProto + " (it is: " + got + ")"}, nil, False)
 		}
 	}
-	if fi.Lit != nil && c.Yields != "" && !st.yielded {
-		// the producer finishes without having yielded anything: the stream's finish condition must hold
-		if sc := x.W.CS.ByKey["stream."+c.Yields]; sc != nil {
+	if sc := x.W.CS.ByKey["stream."+c.Yields]; fi.Lit != nil && c.Yields != "" && sc != nil && (!st.yielded || len(sc.Records) > 0) {
+		// the producer finishes without having yielded anything (recording streams: at every exit): the stream's
+		// finish condition must hold
+		{
+			bindSubjects(sc, x.prodSubj, post)
 			x.wrapCfail("finish condition of stream "+c.Yields, func() {
 				for _, e := range sc.Ensures {
 					x.emit(st, oblTemplate{kind: "finish", label: e.Label, clause: e.Text, props: e.Props, pos: e.Pos,
